@@ -19,7 +19,7 @@ ASSUMPTIONS = ["the reference predicate vf.oracles.is_missing is itself trusted 
 REQUIRED_MONITORS = ["is_unlabeled", "is_labeled", "unlabeled_indices", "labeled_indices", "ExtLabelEncoder.transform",
                      "ExtLabelEncoder.inverse_transform", "C16.round-trip-oracle"]
 SENT = [("str_prefix", "nan", "<U3", ["n", "na", "y"]),      # labels that are prefixes of the (longer) sentinel
-        ("nan", np.nan, float, [0.5, 1.0, 2.0]), ("none_num", None, object, [1, 2, 3]),
+        ("nan", np.nan, float, [0.5, 1.0, 2.0]), ("nan32", np.float32("nan"), float, [0.5, 1.0, 2.0]), ("none_num", None, object, [1, 2, 3]),
         ("none_str", None, object, ["a", "b", "c"]), ("neg1", -1, int, [0, 3, 7]), ("float_s", -1.5, float, [0.0, 1.0, 2.5]),
         ("int99", 99, int, [10, 20, 30]), ("str_s", "zz", "<U2", ["a", "b", "c"]), ("empty", "", "<U2", ["a", "b", "c"])]
 _ready = [False]
@@ -114,8 +114,8 @@ def _short(y):
 def _eq(a, b):
     if a is None or b is None:
         return a is None and b is None
-    if isinstance(a, float) and a != a:
-        return isinstance(b, float) and b != b
+    if isinstance(a, (float, np.floating)) and a != a:
+        return isinstance(b, (float, np.floating)) and b != b
     try:
         return bool(a == b)
     except Exception:
